@@ -16,7 +16,8 @@ def tables(ctx, e):
     mt = kernels.map_table(rows)
     rows2, _ = kernels.summarize(ctx, e, 'type')
     tt = kernels.map_table(rows2)
-    return {'member_map': mt, 'trait': tt, 'member_rows': rows, 'type_rows': rows2}
+    return {'member_map': mt, 'trait': tt, 'member_rows': rows, 'type_rows': rows2,
+            'ghost': kernels.bits_table(rows, 'Ghost'), 'ghosts_member': kernels.bits_table(rows, 'Ghosts'), 'ghosts_type': kernels.bits_table(rows2, 'Ghosts')}
 
 
 def flat(ts):
